@@ -37,10 +37,11 @@ REGEXES = ["^abc$", "^[a-z]+$", "^[A-Z][a-z]*$", "^[0-9]{1,2}$", "^a|b$", "^(a|b
            # several classes with literal glue between them (glue that is not GBNF syntax by itself)
            "^[a-z]+@[a-z]+$", "^[a-z]+-[0-9]+$", "[A-Z]+_[0-9]", "^[a-z]+:[0-9]+$", "^[a-z]+/[a-z]+$", "[a-z]+,[a-z]*", "^[a]b]$", "^[a-z] [a-z]$",
            "^[#0-9a-f]+$", "^[a-z]+#[0-9]?$"]
+QUANT = ["^.{1,80}$", "^.{,80}$", ".{,}", "^.{}$", "^.{3}$", "^.{2,}$", "^a{,3}$", "^[a-z]{,4}$", "^[a-z]{2,}$", "^(ab){,2}$", "^.{0}$", "^.{ 1,2}$", "a{99999999999}", "^.*?$", "^.+?$", "^a{1,2}?$"]
 CHAINS = (["REQ", "OPT", "CONST[X]", "CONST[5]", 'CONST["a b"]', 'CONST["q\\"q"]', 'CONST["b\\\\s"]', "ENUM[A,B]", "ENUM[ACTIVE,ARCHIVED,DONE]", "ENUM[5,6]",
            'ENUM["a b","c"]', "TYPE[STRING]", "TYPE[NUMBER]", "TYPE[BOOLEAN]", "TYPE[LIST]", "RANGE[0,10]", "MAX_LENGTH[3]", "MIN_LENGTH[1]", "MIN_LENGTH[0]",
            "DATE", "ISO8601", "DIR", "APPEND_ONLY", "TYPE[LITERAL]", "LANG[py]", 'ENUM["C#","F#"]', 'CONST["#general"]', 'ENUM["issue #12",b]', "REQ∧ENUM[A,B]", "OPT∧TYPE[NUMBER]∧RANGE[0,5]", "REQ∧DATE"]
-          + [f'REGEX["{r}"]' for r in REGEXES] + [f'REQ∧REGEX["{REGEXES[0]}"]'])
+          + [f'REGEX["{r}"]' for r in REGEXES + QUANT] + [f'REQ∧REGEX["{REGEXES[0]}"]'])
 
 STRUCTURAL = {"ws", "field", "content", "document", "root"}
 
@@ -186,6 +187,36 @@ def check_history(case) -> Res:
     return Res("ok" if not viol else "problems", nontrivial="history", violations=uniq, transitions=len(texts))
 
 
+def check_format_history(case) -> Res:
+    """One long-lived CompileGrammarTool / EjectTool (the MCP server keeps them): every sequence of <= 3 requests over (schema, format); the
+    grammar answered at step k must equal the answer of a FRESH tool to the same request, and must be well-formed when format is gbnf."""
+    from octave_mcp.mcp.compile_grammar import CompileGrammarTool
+    seq = case
+    tool = CompileGrammarTool()
+    viol = []
+    outs = []
+    for k, (schema, fmt) in enumerate(seq):
+        kw = dict(schema=schema) if fmt is None else dict(schema=schema, format=fmt)
+        r = sl.lab()["loop"].run_until_complete(tool.execute(**kw))
+        fresh = sl.lab()["loop"].run_until_complete(CompileGrammarTool().execute(**kw))
+        outs.append((schema, fmt, r.get("status"), len(str(r.get("grammar")))))
+        if (r.get("status"), r.get("format"), r.get("grammar")) != (fresh.get("status"), fresh.get("format"), fresh.get("grammar")):
+            viol.append(dict(descriptor=f"format-history:answer-depends-on-earlier-requests:{fmt or 'default'}", atoms=["gbnf:history"], case=dict(sequence=[list(x) for x in seq], step=k),
+                             observed=f"step {k}: {str(r.get('grammar'))[:150]!r} vs fresh {str(fresh.get('grammar'))[:150]!r}", expected="the answer a fresh tool gives"))
+        if r.get("status") == "success" and (fmt in (None, "gbnf")) and isinstance(r.get("grammar"), str):
+            rules, problems = gbnf.check(r["grammar"])
+            bad = [p for p in problems if not p.startswith("rule-name-char")]
+            if bad:
+                viol.append(dict(descriptor="format-history:" + ",".join(sorted(bad)), atoms=[f"gbnf:{p}" for p in sorted(bad)], case=dict(sequence=[list(x) for x in seq], step=k),
+                                 observed=f"step {k}: {problems} {r['grammar'][:300]!r}", expected="well-formed GBNF"))
+    uniq, seen = [], set()
+    for v in viol:
+        if v["descriptor"] not in seen:
+            seen.add(v["descriptor"])
+            uniq.append(v)
+    return Res("ok" if not viol else "problems", extra_nontrivial=outs, violations=uniq, transitions=len(seq) * 2)
+
+
 def check_packaged(case) -> Res:
     name = case
     r = sl.call("c", schema=name, format="gbnf")
@@ -218,6 +249,12 @@ def run(ctx):
     ctx.coverage["bounds"] = {"names": NAMES, "chains": CHAINS, "own_rule_names_as_field_names": dyn}
     singles = [((n, c),) for n in NAMES for c in CHAINS] + [((n, c),) for n in dyn if n not in NAMES for c in ("REQ", "ENUM[A,B]")]
     ctx.explore("single_field", singles, check_program, chunk=20)
+    # conjunctions of two / three atomic constraints under one plain name: every ordered pair (the compiler picks "the deciding" member
+    # of a chain; chains with two members of one kind - ENUM∧ENUM disjoint or overlapping, CONST∧CONST, RANGE∧RANGE - are legal schema text)
+    atoms = [c for c in CHAINS if "∧" not in c and not c.startswith("REGEX")] + ["ENUM[C]", "ENUM[B,C]", "ENUM[DONE]", "CONST[A]", "RANGE[5,20]", f'REGEX["{REGEXES[0]}"]', 'REGEX["^.{1,8}$"]']
+    conj = [(("STATE", f"{a}∧{b}"),) for a in atoms for b in atoms if a != b]
+    conj += [(("STATE", f"REQ∧{a}∧{b}"),) for a in atoms for b in atoms if a != b and a.startswith(("ENUM", "CONST")) and b.startswith(("ENUM", "CONST"))]
+    ctx.explore("chain_conjunctions", conj, check_program, chunk=20)
     pairs = [((a, "REQ"), (b, "ENUM[X,Y]")) for a in NAMES for b in NAMES if a != b]
     ctx.explore("name_pairs", pairs, check_program, chunk=20)
     if not ctx.quick:
@@ -225,6 +262,9 @@ def run(ctx):
         ctx.explore("name_triples", triples, check_program, chunk=20)
     ctx.explore("raw_fields", [(a,) for a in RAW_FIELDS] + [(a, b) for a in RAW_FIELDS for b in RAW_FIELDS if a != b], check_raw, chunk=5)
     ctx.explore("history", [0], check_history, chunk=1)
+    import itertools
+    reqs = [(sc, f) for sc in ("SKILL", "META") for f in (None, "gbnf", "json_schema")]
+    ctx.explore("format_history", [list(h) for n in (1, 2, 3) for h in itertools.product(reqs, repeat=n)], check_format_history, chunk=20)
     ctx.explore("packaged", ["META", "SKILL", "TEST_HOLOGRAPHIC", "DEBATE_TRANSCRIPT"], check_packaged, chunk=1)
     sl.cleanup()
 
@@ -232,6 +272,8 @@ def run(ctx):
 def replay(ctx, rp):
     c = rp["case"]
     try:
+        if rp.get("subcheck") == "format_history":
+            return check_format_history([tuple(x) for x in c["sequence"]]).violations
         if rp.get("subcheck") == "history":
             return check_history(0).violations
         if rp.get("subcheck") == "packaged":
